@@ -5,12 +5,16 @@ src/user/user_api.cc; all-paths exploration; nothing is executed):
   R-TABLE       for every mjtSensor enumerator: the stage the compiler assigns (sensorNeedstage) is the stage whose compute
                 function (found through the dispatcher's switch on m->sensor_needstage[i]) has its case label, in exactly
                 one of them; the size table sensorSize has a case for it; enumerators handled by no switch are in the
-                reasoned exception table and are tested by name in every stage loop
+                reasoned exception table and every compute delivery of a stage loop is guarded by
+                `m->sensor_type[i] != E` for its own i (early continue or the other arm of E's branch)
   R-WHO-WRITES  the closure of the per-stage compute functions never touches d->sensordata (no store, non-const pass,
                 alias); the compute functions store into no mjData array themselves; every call of a function of the slice
                 family (compute functions, the cutoff function and the functions forwarding their own index/slice pair to
                 them) passes its own pair unchanged, or `d->sensordata + m->sensor_adr[I]` / the history slot of I with the
-                same I it passes as the sensor index
+                same I it passes as the sensor index.  Private helpers (static, address never taken, not in the family)
+                are analysed inside their callers with the arguments substituted; the instances are the distinct
+                deliveries (entry function, callee, index, slice), so a driver shared by the three stage entry points
+                counts once per stage and a call repeated on several branches counts once
   R-SIZE        per case label (function explored with `type == T` decided): the elements written through the slice are the
                 first k with k a literal equal to sensorSize(T) and mjs_sensorDim(T), or exactly m->sensor_dim[i]
   R-CUTOFF      every compute call for (i, slice) is followed by the cutoff call for the same (i, slice) on every returning
@@ -52,7 +56,9 @@ VAR_EXTENT = {
 }
 
 FLOOR_ENUM = 45           # 49 enumerators on the pinned tree
-FLOOR_SLICE_CALLS = 12    # 14 call sites of the slice family (engine_sensor.c 12, engine_forward.c 2)
+FLOOR_SLICE_CALLS = 14    # 16 deliveries of an (index, slice) pair to the slice family: distinct (entry function with its private
+#                           helpers in place, callee, pair) -- mj_computeSensor 4, mj_sensorPos/Vel/Acc 3 each (compute, user
+#                           cutoff sweep, plugin cutoff sweep), the three integrators that reach the history insert 1 each
 FLOOR_SIZE = 40           # 44 case labels with a literal or sensor_dim extent
 FLOOR_LAZY = 7            # 9 (case, flag) readers: E_POTENTIAL, E_KINETIC, SUBTREELINVEL, SUBTREEANGMOM,
 #                           ACCELEROMETER, FORCE, TORQUE, FRAMELINACC, FRAMEANGACC
@@ -129,6 +135,8 @@ def run(res, tier):
                 sc = dict(sc, kind="other", why="forwarding function outside engine_sensor.c: its callers are not analysed")
             sites.append(sc)
     stage_loops = sorted({s["function"] for s in sites if s["kind"] == "sensordata" and s["callee"] != CUTOFF})
+    if not stage_loops and not any(s["kind"] == "other" for s in sites):
+        raise AnalysisError("no stage loop found: nothing hands d->sensordata + m->sensor_adr[i] to a compute function")
     for e in NO_SWITCH:
         if e not in enumerators:
             raise AnalysisError(f"exception table names {e}, which is not an mjtSensor enumerator any more")
@@ -136,17 +144,15 @@ def run(res, tier):
         where = labels.get(e, [])
         file, line = SENSOR, (case_line.get((e, where[0])) if where else u.funcs[disp[0]].get("line"))
         if e in NO_SWITCH:
-            missing = []
-            for f in stage_loops:
-                named = any(r_sensor.enum_of(x) == e for n in cir.walk(u.funcs[f])
-                            if n.get("k") == "BinaryOperator" and n.get("op") in ("==", "!=") for x in cir.kids(n))
-                if not named:
-                    missing.append(f)
+            # every compute delivery of a stage loop is guarded by `m->sensor_type[i] != e` for its own i (early continue or
+            # the other arm of e's branch, in the loop itself or in a private helper analysed in place)
+            missing = sorted({s2["function"] for s2 in sites if s2["function"] in stage_loops and s2["kind"] == "sensordata"
+                              and s2["callee"] != CUTOFF and e not in s2["excluded_types"]})
             if where:
                 res.bad("R-TABLE", e, file, line, f"{e} is in the exception table (no built-in computation) but has a case "
                         f"label in the {where} switch")
             elif missing:
-                res.bad("R-TABLE", e, SENSOR, u.funcs[missing[0]].get("line"),
+                res.bad("R-TABLE", e, SENSOR, (u.funcs.get(missing[0]) or {}).get("line"),
                         f"{e} is handled by no per-stage switch and {missing} does not test for it by name before computing: "
                         f"the sensor would reach the `invalid sensor type` error")
             elif e not in size_tab:
@@ -179,8 +185,9 @@ def run(res, tier):
             raise AnalysisError(f"{COMPILER[1]} has a case {e} that is not an mjtSensor enumerator")
 
     # ------------------------------------------------------------------------------------------- R-WHO-WRITES
-    res.rule("R-WHO-WRITES", "compute functions and their closure never touch d->sensordata; every slice-family call passes its "
-             "own (index, slice) pair or d->sensordata + m->sensor_adr[I] / the history slot of I for the same I",
+    res.rule("R-WHO-WRITES", "compute functions and their closure never touch d->sensordata; every delivery to the slice family "
+             "(per entry function with its private helpers in place) passes the caller's own (index, slice) pair or "
+             "d->sensordata + m->sensor_adr[I] / the history slot of I for the same I",
              floor=FLOOR_SLICE_CALLS + 3)
     for a in ANCHORS:
         key = g.find(a)
@@ -208,7 +215,8 @@ def run(res, tier):
         construct = f"{s['function']}:{s['callee']}#{s['ord']}"
         if s["kind"] in ("forward", "sensordata", "history"):
             res.ok("R-WHO-WRITES", construct, {"file": s["file"], "line": s["line"], "kind": s["kind"], "index": s["index"],
-                                                "slice": s["slice"]})
+                                                "slice": s["slice"], "call_sites": s.get("sites"),
+                                                "helpers_in_place": s.get("inlined")})
         else:
             res.bad("R-WHO-WRITES", construct, s["file"], s["line"],
                     f"{s['callee']}() is called for sensor `{s['index']}` with the slice `{s['slice']}`, which is neither the "
@@ -437,6 +445,115 @@ _ENS_VEL = ("  if (!d->flg_subtreevel &&\n      (type == mjSENS_SUBTREELINVEL ||
             "    mj_subtreeVel(m, d);\n  }\n")
 _JV = "  case mjSENS_JOINTVEL:                               // joint velocity\n    sensordata[0] = d->qvel[m->jnt_dofadr[objid]];\n    break;\n\n"
 _TV = "  case mjSENS_TENDONVEL:                              // tendon velocity\n    sensordata[0] = d->ten_velocity[objid];\n    break;\n\n"
+# refactored shapes of engine_sensor.c (behaviour preserving): the three stage drivers merged into one static function
+# parametrised by the stage, the history decision of compute_or_read_sensor taken once, the cutoff guards merged
+_DRIVERS = ("// position-dependent sensors\nvoid mj_sensorPos(", "//-------------------------------- energy")
+_MERGED_DRIVER = """// process all sensors of the given stage: builtin, then user, then plugin sensors
+static void compute_stage_sensors(const mjModel* m, mjData* d, mjtStage stage) {
+  int nsensor = m->nsensor;
+  int nusersensor = 0;
+  if (mjDISABLED(mjDSBL_SENSOR)) {
+    return;
+  }
+  int sleep_filter = mjENABLED(mjENBL_SLEEP) && d->nbody_awake < m->nbody;
+  for (int i=0; i < nsensor; i++) {
+    mjtSensor type = (mjtSensor) m->sensor_type[i];
+    if (type == mjSENS_PLUGIN) {
+      continue;
+    }
+    if (sleep_filter && mj_sleepState(m, d, mjOBJ_SENSOR, i) == mjS_ASLEEP) {
+      continue;
+    }
+    if (m->sensor_needstage[i] != stage) {
+      continue;
+    }
+    mjtNum* sensordata = d->sensordata + m->sensor_adr[i];
+    if (type == mjSENS_USER) {
+      if (stage == mjSTAGE_VEL) {
+        if (!d->flg_subtreevel) {
+          mj_subtreeVel(m, d);
+        }
+      } else if (stage == mjSTAGE_ACC) {
+        if (!d->flg_rnepost) {
+          mj_rnePostConstraint(m, d);
+        }
+      }
+      mju_zero(sensordata, m->sensor_dim[i]);
+      nusersensor++;
+    } else {
+      compute_or_read_sensor(m, d, i, sensordata);
+    }
+  }
+  if (nusersensor) {
+    compute_user_sensors(m, d, stage);
+  }
+  compute_plugin_sensors(m, d, stage);
+}
+
+void mj_sensorPos(const mjModel* m, mjData* d) {
+  compute_stage_sensors(m, d, mjSTAGE_POS);
+}
+
+void mj_sensorVel(const mjModel* m, mjData* d) {
+  compute_stage_sensors(m, d, mjSTAGE_VEL);
+}
+
+void mj_sensorAcc(const mjModel* m, mjData* d) {
+  compute_stage_sensors(m, d, mjSTAGE_ACC);
+}
+
+
+"""
+
+
+def _drivers(text):
+    return [("sub", SENSOR, r"(?s)\A.*\Z", lambda _m: text, _DRIVERS[0], _DRIVERS[1])]
+
+
+_CORS = ("// compute sensor or read from history buffer (handles delay and interval logic)\n",
+         "// compute user sensors: call user callback and apply cutoff")
+_ONE_DECISION = """static void read_sensor_history(const mjModel* m, mjData* d, int i, mjtNum* sensordata) {
+  int interp = m->sensor_history[2*i+1];
+  const mjtNum* ptr = mj_readSensor(m, d, i, d->time, sensordata, interp);
+  if (ptr) {
+    mju_copy(sensordata, ptr, m->sensor_dim[i]);
+  }
+}
+
+static void compute_or_read_sensor(const mjModel* m, mjData* d, int i, mjtNum* sensordata) {
+  int nsample = m->sensor_history[2*i];
+  int from_history = 0;
+  if (nsample > 0) {
+    if (m->sensor_delay[i] > 0) {
+      from_history = 1;
+    } else {
+      mjtNum interval = m->sensor_interval[2*i];
+      if (interval > 0) {
+        mjtNum time_prev = d->history[m->sensor_historyadr[i]];
+        from_history = !(time_prev + interval <= d->time);
+      }
+    }
+  }
+  if (from_history) {
+    read_sensor_history(m, d, i, sensordata);
+  } else {
+    mj_computeSensor(m, d, i, sensordata);
+  }
+}
+
+
+"""
+_CUT_OLD = ("  if (cutoff <= 0) {\n    return;\n  }\n\n  // cutoff ignored for contact and fromto sensors (but used by fromto sensors in a different way)\n"
+            "  mjtSensor type = (mjtSensor)m->sensor_type[i];\n  if (type == mjSENS_CONTACT || type == mjSENS_GEOMFROMTO) {\n    return;\n  }\n\n"
+            "  int dim = m->sensor_dim[i];\n\n  for (int j=0; j < dim; j++) {\n    // real: apply on both sides\n"
+            "    if (m->sensor_datatype[i] == mjDATATYPE_REAL) {\n      data[j] = mju_clip(data[j], -cutoff, cutoff);\n    }\n\n"
+            "    // positive: apply on positive side only\n    else if (m->sensor_datatype[i] == mjDATATYPE_POSITIVE) {\n"
+            "      data[j] = mju_min(cutoff, data[j]);\n    }\n  }\n}\n")
+_CUT_NEW = ("  mjtSensor type = (mjtSensor)m->sensor_type[i];\n"
+            "  if (cutoff <= 0 || type == mjSENS_CONTACT || type == mjSENS_GEOMFROMTO) {\n    return;\n  }\n\n"
+            "  int dim = m->sensor_dim[i];\n  int datatype = m->sensor_datatype[i];\n\n"
+            "  if (datatype == mjDATATYPE_REAL) {\n    for (int j=0; j < dim; j++) {\n      data[j] = mju_clip(data[j], -cutoff, cutoff);\n    }\n  }\n"
+            "  else if (datatype == mjDATATYPE_POSITIVE) {\n    for (int j=0; j < dim; j++) {\n      data[j] = mju_min(cutoff, data[j]);\n    }\n  }\n}\n")
 MUTANTS = [
     ("move-case-to-other-stage", [(SENSOR, _CLOCK, ""), (SENSOR, _VELHEAD, _CLOCK + _VELHEAD)], "rule=R-TABLE construct=mjSENS_CLOCK"),
     ("compiler-stage-changed", [(COMPILER[0], "  case mjSENS_E_KINETIC:\n  case mjSENS_CLOCK:\n  case mjSENS_PLUGIN:\n  case mjSENS_USER:\n    return mjSTAGE_POS;",
@@ -452,7 +569,7 @@ MUTANTS = [
      "rule=R-WHO-WRITES construct=mj_computeSensorPos:no-access-to-d->sensordata"),
     ("slice-of-other-sensor", [(SENSOR, "      mjtSensor type = m->sensor_type[i];\n      int adr = m->sensor_adr[i];\n      mjtNum* sensordata = d->sensordata + adr;\n\n      if (type == mjSENS_USER) {\n        // call mj_subtreeVel",
                                 "      mjtSensor type = m->sensor_type[i];\n      int adr = m->sensor_adr[i+1];\n      mjtNum* sensordata = d->sensordata + adr;\n\n      if (type == mjSENS_USER) {\n        // call mj_subtreeVel")],
-     "rule=R-WHO-WRITES construct=mj_sensorVel:compute_or_read_sensor#1"),
+     "rule=R-WHO-WRITES construct=mj_sensorVel:mj_computeSensor#1"),
     ("cutoff-skipped-on-one-path", [(SENSOR, "    mj_computeSensorVel(m, d, i, sensordata);\n    break;", "    mj_computeSensorVel(m, d, i, sensordata);\n    return;")],
      "rule=R-CUTOFF construct=mj_computeSensor:mj_computeSensorVel"),
     ("plugin-cutoff-sweep-removed", [(SENSOR, "        apply_cutoff(m, j, d->sensordata + m->sensor_adr[j]);\n", "        (void)j;\n")],
@@ -471,6 +588,26 @@ MUTANTS = [
                             (SENSOR, "    mju_copy4(sensordata, d->qpos+m->jnt_qposadr[objid]);\n    mju_normalize4(sensordata);", "    ballquat(d, m->jnt_qposadr[objid], sensordata);")], None),
     ("ctl-cutoff-guard-as-continue", [(SENSOR, "    if (m->sensor_type[i] == mjSENS_USER && m->sensor_needstage[i] == stage) {\n      apply_cutoff(m, i, d->sensordata + m->sensor_adr[i]);\n    }",
                                        "    if (m->sensor_type[i] != mjSENS_USER) continue;\n    if (m->sensor_needstage[i] != stage) continue;\n    apply_cutoff(m, i, d->sensordata + m->sensor_adr[i]);")], None),
+    ("ctl-stage-drivers-merged", _drivers(_MERGED_DRIVER), None),
+    ("ctl-single-history-decision", [("sub", SENSOR, r"(?s)\A.*\Z", lambda _m: _CORS[0] + _ONE_DECISION, _CORS[0], _CORS[1])], None),
+    ("ctl-cutoff-merged-guards", [(SENSOR, _CUT_OLD, _CUT_NEW)], None),
+    ("ctl-all-three-refactors", _drivers(_MERGED_DRIVER) + [(SENSOR, _CUT_OLD, _CUT_NEW),
+                                 ("sub", SENSOR, r"(?s)\A.*\Z", lambda _m: _CORS[0] + _ONE_DECISION, _CORS[0], _CORS[1])], None),
+    # the same demands on the merged shapes
+    ("merged-driver-slice-of-other-sensor",
+     _drivers(_MERGED_DRIVER.replace("d->sensordata + m->sensor_adr[i];", "d->sensordata + m->sensor_adr[i+1];")),
+     "rule=R-WHO-WRITES construct=mj_sensorVel:mj_computeSensor#1"),
+    ("merged-driver-plugin-not-skipped",
+     _drivers(_MERGED_DRIVER.replace("    if (type == mjSENS_PLUGIN) {\n      continue;\n    }\n", "")),
+     "rule=R-TABLE construct=mjSENS_PLUGIN"),
+    ("merged-driver-user-computed",
+     _drivers(_MERGED_DRIVER.replace("    } else {\n      compute_or_read_sensor(m, d, i, sensordata);\n    }\n",
+                                     "    }\n    compute_or_read_sensor(m, d, i, sensordata);\n")),
+     "rule=R-TABLE construct=mjSENS_USER"),
+    ("history-decision-wrong-sensor",
+     [("sub", SENSOR, r"(?s)\A.*\Z", lambda _m: _CORS[0] + _ONE_DECISION.replace("    mj_computeSensor(m, d, i, sensordata);", "    mj_computeSensor(m, d, i+1, sensordata);"),
+       _CORS[0], _CORS[1])],
+     "rule=R-WHO-WRITES construct=mj_sensor"),
 ]
 
 
